@@ -436,6 +436,8 @@ class TileCreator(object):
                     source.as_buffer(self.tile_mgr.image_opts)
                 source.image_opts = self.tile_mgr.image_opts
                 tile.source = source
+                # forget timestamp and size of the (stale) tile that gets replaced
+                tile.timestamp = tile.size = None
                 tile.cacheable = source.cacheable
                 tile = self.tile_mgr.apply_tile_filter(tile)
                 if source.cacheable:
